@@ -1069,11 +1069,21 @@ class InsertAxis(Array):
 
     def _sum(self, i):
         if i == self.ndim - 1:
-            return self.func if self.dtype == bool else self.func * astype(self.length, self.func.dtype)
+            if self.dtype == bool:
+                # any() over the inserted axis: func, unless the axis is empty
+                if self.length._intbounds[0] > 0:
+                    return self.func
+                return
+            return self.func * astype(self.length, self.func.dtype)
         return InsertAxis(sum(self.func, i), self.length)
 
     def _product(self):
-        return self.func if self.dtype == bool else self.func**astype(self.length, self.func.dtype)
+        if self.dtype == bool:
+            # all() over the inserted axis: func, unless the axis is empty
+            if self.length._intbounds[0] > 0:
+                return self.func
+            return
+        return self.func**astype(self.length, self.func.dtype)
 
     def _power(self, n):
         unaligned1, unaligned2, where = unalign(self, n)
